@@ -98,6 +98,8 @@ def wave_arg(cell, synthesis):
 
 
 def axis_flens(cell):
+    if cell.get('filters'):
+        return [len(cell['filters'][0])] * cell['dim']
     if cell['dim'] == 1:
         return [refs.flen(cell['wave'])]
     return [refs.flen(cell['wave']), refs.flen(cell.get('wave_row') or cell['wave'])]
